@@ -41,7 +41,7 @@ func runC22(c *Ctx) {
 	}
 	for _, r := range succ {
 		d := c.D(RetVal(r.(*ssa.Return), 0))
-		c.Report(parent, "result is the collected prefix of the buffer", c.InstrPos(r), d == "var:ops[:var:opsindex]", d)
+		c.Report(parent, "result is the collected prefix of the buffer", c.InstrPos(r), d == "var:ops[:var:opsindex]" || d == "var:ops", d)
 	}
 	c.Floor(parent, "success returns", len(succ), 1)
 	c.Rule("R22.2", "MustPass")
@@ -61,8 +61,16 @@ func runC22(c *Ctx) {
 	}
 	c.Report(parent, "the result buffer is not allocated by the caller's limit up front", parent.Pos(), len(pre) == 0,
 		"make([][2]util.Hash, limit) at "+strings.Join(pre, ", ")+": a huge limit panics (makeslice) or allocates before any record is read")
-	cb := c.ClosureWithStore(parent, "&var:ops[var:opsindex]")
+	setOperationRules(c)
+	var cb *ssa.Function
+	for _, f := range WithClosures(parent) {
+		if f != parent && len(c.StoresD(f, "&var:ops[var:opsindex]")) > 0 {
+			cb = f
+		}
+	}
 	if cb == nil {
+		// the list grows by append (no buffer sized by the limit): same obligations on that form
+		opHashesAppendForm(c, parent, meta)
 		return
 	}
 	// R22.8: "for a fact submitted several times the most recently added operation is chosen": the scan
@@ -187,6 +195,10 @@ func runC22(c *Ctx) {
 		}
 	}
 	c.Report(cb, "remembered positions are shifted after a cut", cb.Pos(), shift, "facts[k]-- for positions above the removed entry")
+
+}
+
+func setOperationRules(c *Ctx) {
 	// R22.4
 	c.Rule("R22.4", "MustPass")
 	if fn := c.Need("isaac/database.(*TempPool).SetOperation"); fn != nil {
@@ -206,4 +218,151 @@ func runC22(c *Ctx) {
 			c.ArgIs(fn, "existence tested under the operation's own key", ex, 1, 0, "isaacdatabase.newNewOperationLeveldbKeys(op.Hash())#0")
 		}
 	}
+}
+
+// opHashesAppendForm: the obligations of R22.1/R22.3/R22.5/R22.8 on an OperationHashes whose
+// collected list grows by append (ops = append(ops, entry)) instead of filling a buffer by index.
+func opHashesAppendForm(c *Ctx, parent *ssa.Function, meta string) {
+	var cb *ssa.Function
+	var col []ssa.Instruction
+	for _, f := range WithClosures(parent) {
+		if f == parent {
+			continue
+		}
+		for _, st := range c.StoresD(f, "&var:ops") {
+			if strings.HasPrefix(c.D(st.(*ssa.Store).Val), "append(var:ops, ") {
+				cb = f
+				col = append(col, st)
+			}
+		}
+	}
+	if cb == nil {
+		c.Unresolved(parent, "scan callback", "no closure collects into the list (neither by index nor by append)")
+		return
+	}
+	c.Rule("R22.8", "MustPass")
+	full := []Gate{GCmp("len(var:ops)", "==", "limit"), GCmp("len(var:ops)", ">=", "limit")}
+	var atLimit []ssa.Instruction
+	for _, r := range c.ReturnsD(cb, 0, "false") {
+		if allOK(c.MustPass(cb, nil, []ssa.Instruction{r}, full...)) {
+			atLimit = append(atLimit, r)
+		}
+	}
+	oldestFirst := false
+	for _, it := range c.CallsD(parent, "*.Iter(*)") {
+		if c.D(CallArg(it, 2)) == "true" {
+			oldestFirst = true
+		}
+	}
+	for _, r := range atLimit {
+		c.Report(cb, "reaching the limit does not end the scan while newer operations of selected facts may follow", c.InstrPos(r), !oldestFirst,
+			"the oldest-first scan returns at opsindex == limit: a newer operation of an already selected fact is never seen and the older one is handed out")
+	}
+	if len(atLimit) == 0 {
+		c.floors["R22.8 stops at the limit (0 is fine: the scan covers the pool)"] = [2]int{0, 0}
+	}
+	c.Rule("R22.1", "MustPass")
+	c.Exists(cb, "one place collects an entry", col, 1)
+	c.MP(cb, "entry collected only for a decodable record", col, 1, GOk("isaacdatabase.ReadFrameHeaderOperation(b)"))
+	c.MP(cb, "entry collected only if the filter passed", col, 1, GTrue("call(var:nfilter)("+meta+")#0"))
+	c.MP(cb, "entry collected only if the filter did not fail", col, 1, GOk("call(var:nfilter)("+meta+")"))
+	c.StoredIs(cb, "entry's first half is the record's operation hash", c.StoresD(cb, "&var:complit[0]"), 1, meta+".Operation()")
+	c.StoredIs(cb, "entry's second half is the record's fact hash", c.StoresD(cb, "&var:complit[1]"), 1, meta+".Fact()")
+	for _, st := range col {
+		c.Report(cb, "exactly one entry is appended per record", c.InstrPos(st), c.D(st.(*ssa.Store).Val) == "append(var:ops, var:varargs[:])" && len(c.StoresD(cb, "&var:varargs[0]")) >= 1, c.D(st.(*ssa.Store).Val))
+	}
+	if len(col) == 1 {
+		var conts []ssa.Instruction
+		res := reach(cb, col[0], nil)
+		for _, r := range c.ReturnsD(cb, 0, "true") {
+			if res.reached[r] {
+				conts = append(conts, r)
+			}
+		}
+		c.MPFrom(cb, col[0], "after collecting, the iteration continues only while collected != limit", conts, 1, GCmp("len(var:ops)", "!=", "limit"), GCmp("len(var:ops)", "<", "limit"))
+		// the position remembered for the fact is the position the entry gets: the length before the append
+		mus := c.MapUpdatesD(cb, "var:facts")
+		okKey := false
+		for _, in := range mus {
+			mu := in.(*ssa.MapUpdate)
+			if c.D(mu.Key) == meta+".Fact().String()" && c.D(mu.Value) == "len(var:ops)" && !res.reached[in] {
+				// no store to the list between remembering the position and appending
+				between := reach(cb, in, nil)
+				okKey = true
+				for _, st := range c.StoresD(cb, "&var:ops") {
+					if st != col[0] && between.reached[st] && reachesInstr(cb, st, col[0]) {
+						okKey = false
+					}
+				}
+			}
+		}
+		c.Report(cb, "fact position remembered under the record's fact", cb.Pos(), okKey, "facts[fact] = len(ops) taken right before the entry is appended")
+	}
+	// R22.3
+	c.Rule("R22.3", "BoundsGuard")
+	nIdx := 0
+	for _, in := range allInstrs(cb) {
+		if st, ok := in.(*ssa.Store); ok {
+			if ia, ok := st.Addr.(*ssa.IndexAddr); ok {
+				d := c.D(ia.X)
+				if strings.Contains(d, "removeops") || strings.Contains(d, "removeordereds") {
+					nIdx++
+					c.Report(cb, "indexed store into a removal buffer", c.InstrPos(in), false, "the number of filtered-out records is not bounded by limit: "+c.D(st.Addr))
+				}
+			}
+		}
+	}
+	app1 := c.StoresD(cb, "&var:removeops")
+	app2 := c.StoresD(cb, "&var:removeordereds")
+	c.Report(cb, "removal buffers grow by append", cb.Pos(), nIdx == 0 && len(app1) >= 2 && len(app2) >= 1, "appends to removeops / removeordereds")
+	for _, in := range append(app1, app2...) {
+		c.Report(cb, "removal buffer store is an append", c.InstrPos(in), strings.HasPrefix(c.D(in.(*ssa.Store).Val), "append("), c.D(in.(*ssa.Store).Val))
+	}
+	// R22.5
+	c.Rule("R22.5", "MustPass")
+	dup := "var:facts[" + meta + ".Fact().String()]"
+	var supersede, filtered []ssa.Instruction
+	for _, in := range c.StoresD(cb, "&var:varargs[0]") {
+		d := c.D(in.(*ssa.Store).Val)
+		switch d {
+		case "var:ops[" + dup + "#0][0]":
+			supersede = append(supersede, in)
+		case meta + ".Operation()":
+			filtered = append(filtered, in)
+		case "k", "var:complit":
+		default:
+			c.Report(cb, "queued for removal: a tabled value", c.InstrPos(in), false, d)
+		}
+	}
+	c.MP(cb, "superseded entry's operation queued only when the fact was found again", supersede, 1, GTrue(dup+"#1"))
+	c.MP(cb, "the record's own operation queued only when the filter rejected it", filtered, 1, GFalse("call(var:nfilter)("+meta+")#0"))
+	var cut []ssa.Instruction
+	for _, st := range c.StoresD(cb, "&var:ops") {
+		if st != col[0] {
+			cut = append(cut, st)
+		}
+	}
+	c.MP(cb, "collected list cut only when the fact was found again", cut, 1, GTrue(dup+"#1"))
+	for _, cs := range cut {
+		d := c.D(cs.(*ssa.Store).Val)
+		c.Report(cb, "the cut removes exactly the superseded entry", c.InstrPos(cs), d == "slices.Delete(var:ops, "+dup+"#0, ("+dup+"#0 + 1))", d)
+		res := reach(cb, cs, nil)
+		for _, sp := range supersede {
+			c.Report(cb, "superseded operation is read before its entry is cut out of the list", c.InstrPos(sp), !res.reached[sp], "the position refers to the list before the cut")
+		}
+	}
+	shift := false
+	for _, in := range c.MapUpdatesD(cb, "var:facts") {
+		mu := in.(*ssa.MapUpdate)
+		if c.D(mu.Key) == "κ(var:facts)" && c.D(mu.Value) == "(var:facts[κ(var:facts)] - 1)" {
+			shift = true
+			c.MP(cb, "remembered positions above the cut are shifted down", []ssaInstr{in}, 1, GCmp("var:facts[κ(var:facts)]", ">", dup+"#0"))
+		}
+	}
+	c.Report(cb, "remembered positions are shifted after a cut", cb.Pos(), shift, "facts[k]-- for positions above the removed entry")
+}
+
+// reachesInstr: to is reachable from from within fn.
+func reachesInstr(fn *ssa.Function, from, to ssa.Instruction) bool {
+	return reach(fn, from, nil).reached[to]
 }
